@@ -25,11 +25,13 @@ import (
 
 	"github.com/andres-erbsen/clock"
 	"github.com/uber-go/tally"
+	"go.uber.org/zap"
 
 	"github.com/uber/kraken/core"
 	"github.com/uber/kraken/lib/hashring"
 	"github.com/uber/kraken/lib/healthcheck"
 	"github.com/uber/kraken/lib/hrw"
+	"github.com/uber/kraken/utils/log"
 	"github.com/uber/kraken/utils/stringset"
 
 	"verif/harness/internal/ev"
@@ -442,14 +444,23 @@ func TestC21(t *testing.T) {
 	run.Assume("the ring gives all members equal weight, so the ranking does not depend on the weight's value")
 	run.Assume("host discovery order inside Ring.Refresh is Go map iteration order; it is measured through VerifC21NodeOrder, not controlled")
 
-	nMemb := run.N(12, 156)
+	// keep kraken's Info logging ("Hash ring initialised") out of the check log;
+	// errors and the ring's log.Fatal invariant stay visible
+	zc := zap.NewProductionConfig()
+	zc.Encoding = "console"
+	zc.Level = zap.NewAtomicLevelAt(zap.ErrorLevel)
+	log.ConfigureLogger(zc)
+
+	nMemb := run.N(12, 48)
 	for mi := 0; mi < nMemb; mi++ {
 		r := run.Rand(fmt.Sprintf("membership-%d", mi))
 		size := 1 + mi%12
 		hosts, style := genHosts(r, size)
 		var mrs []int
 		if run.Quick() {
-			mrs = []int{1 + mi%5, 1 + (mi+2)%5, 1 + (mi+3)%5}
+			// one MaxReplica per membership, rotated by the seed so that other
+			// seeds pair sizes and replica counts differently
+			mrs = []int{1 + (mi+int(run.Seed()))%5}
 		} else {
 			mrs = []int{1, 2, 3, 4, 5}
 		}
@@ -656,14 +667,30 @@ func evalMembership(t *testing.T, run *ev.Run, r *rand.Rand, mi int, hosts []str
 		}
 		// one goroutine per ring: all 65536 shards, judged against the oracle
 		var wg sync.WaitGroup
-		for _, p := range passes {
+		var pmu sync.Mutex
+		chunks := 1
+		if len(passes) > 0 && len(passes) < workers {
+			chunks = (workers + len(passes) - 1) / len(passes)
+		}
+		for ci := 0; ci < len(passes)*chunks; ci++ {
+			p := passes[ci/chunks]
+			lo := (ci % chunks) * numShards / chunks
+			hi := (ci%chunks + 1) * numShards / chunks
 			wg.Add(1)
-			go func(p *pass) {
+			go func(p *pass, lo, hi int) {
 				defer wg.Done()
-				for s := 0; s < numShards; s++ {
+				paths := map[string]int64{}
+				defer func() {
+					pmu.Lock()
+					for k, v := range paths {
+						p.paths[k] += v
+					}
+					pmu.Unlock()
+				}()
+				for s := lo; s < hi; s++ {
 					got := p.tr.ring.Locations(digests[s])
 					exp, path := expected(ranks[s], hosts, p.healthy, p.g.mr)
-					p.paths[path]++
+					paths[path]++
 					if e, ok := encode(got, index); ok {
 						p.enc[s] = e
 					} else {
@@ -671,18 +698,32 @@ func evalMembership(t *testing.T, run *ev.Run, r *rand.Rand, mi int, hosts []str
 					}
 					// a shard on which two members score equally has no defined rank: only
 					// the cross-ring comparison below applies there
-					if !tieShard[s] && !eq(got, exp) && len(p.bads) < 3 {
-						p.bads = append(p.bads, bad{classify(got, exp, path, members, p.healthy, p.g.mr), map[string]interface{}{
+					if !tieShard[s] && !eq(got, exp) {
+						pmu.Lock()
+						full := len(p.bads) >= 3
+						pmu.Unlock()
+						if full {
+							continue
+						}
+						b := bad{classify(got, exp, path, members, p.healthy, p.g.mr), map[string]interface{}{
 							"shard": fmt.Sprintf("%04x", s), "hosts": hosts, "max_replica": p.g.mr, "health_script": p.script,
 							"healthy": keys(p.healthy), "ring": p.tr.history, "ring_filter": p.tr.kind.String(),
 							"discovery_order": hashring.VerifC21NodeOrder(p.tr.ring),
 							"got":             got, "expected": exp, "oracle_rank": rankNames(ranks[s], hosts),
-						}})
+						}}
+						pmu.Lock()
+						p.bads = append(p.bads, b)
+						pmu.Unlock()
 					}
 				}
-			}(p)
+			}(p, lo, hi)
 		}
 		wg.Wait()
+		for _, p := range passes {
+			sort.Slice(p.bads, func(i, j int) bool {
+				return fmt.Sprint(p.bads[i].witness["shard"]) < fmt.Sprint(p.bads[j].witness["shard"])
+			})
+		}
 
 		// per (MaxReplica, script): cross-ring agreement, bookkeeping, verdicts
 		for i := 0; i < len(passes); {
